@@ -360,7 +360,7 @@ def step (w : World) (d : Decls) (o : MetaOp) : World × Json × Json :=
       | none => false))
     (match defineClass w o.k o.bases o.ns o.dbc with
      | .ok w' => (w', Json.null, boolJson rej)
-     | .error e => (w, errJson e, boolJson rej))
+     | .error e => ((if o.dbc then defineClassResidue w o.bases o.ns else w), errJson e, boolJson rej))
   | "wrap" => (w, Json.null, Json.null)      -- a foreign functools.wraps layer on top of the function: no effect on the contract state
   | "call" => (w, Json.null, Json.null)      -- a call of the function: no effect on the contract state
   | _ => (w, jStr "unknown-op", Json.null)
